@@ -7,6 +7,7 @@ regenerated `Olla.Gen.Translator`.  Every theorem quantifies over ALL request AS
 -/
 import Olla.Model.AnthropicRequest
 import Olla.Spec.C12
+import Olla.Spec.State
 
 namespace Olla.Props.C12
 open Olla.Model.AnthropicRequest Olla.Spec.C12
@@ -879,5 +880,14 @@ example : errIs (tr { sampleReq with messages := [⟨"user", .bad⟩] }) .conten
 example : errIs (tr { sampleReq with choice := .obj "tool" none }) .toolChoice = true := by decide
 example : validIn testLimits errorRows { sampleReq with choice := .obj "tool" none } = false := by decide
 example : fieldsCertainlyBad { sampleReq with maxTokens := 0 } = true := by decide
+
+/-! ### tie: no process-wide state on the modelled path
+
+The theorems above are about single calls (or the history of one object). They cover every
+request of a running process only if a call reaches no state that outlives it besides that
+object. `Olla.Gen.State` is re-read from the source on every run: the package-level variables
+reachable from each function inside its package that the package changes after initialisation. -/
+theorem C12_tie_no_process_wide_state :
+    Olla.Spec.State.reachesOnly "anthropic.TransformRequest" [] = true := by decide
 
 end Olla.Props.C12
